@@ -19,6 +19,7 @@ RULES = [
     ("R-drain", "for $x in self . expires . drain ( 0 .. $n ) {", "let drained = vx_drain_prefix ( & mut self . expires , $n ) ; for $x in drained {", "Vec::drain(0..n) stand-in (trusted contract); exact because the loop body cannot touch the Vec while the Drain lives"),
     ("R-entry", "match self . storage . entry ( $k ) { Entry :: Occupied ( mut occ ) => occ . get_mut ( ) . push ( $x ) , Entry :: Vacant ( vac ) => { vac . insert ( vec ! [ $y ] ) ; } } ;", "vx_entry_push ( & mut self . storage , $k , $x ) ;", "entry()/Occupied/Vacant push idiom -> verified helper (via get_mut/insert)"),
     ("R-eager", "self . storage . get ( info_hash ) . into_iter ( ) . flatten ( ) . map ( $c )", "vx_opt_vec_map ( self . storage . get ( info_hash ) , $c )", "lazy Option<&Vec>.into_iter().flatten().map(f) -> eager Vec with the same element sequence (Flatten unsupported)"),
+    ("R-fcollect", "self . active_stores . find_items ( & g . info_hash ) . filter ( $c ) . collect ( )", "vx_filter_collect ( self . active_stores . find_items ( & g . info_hash ) , $c )", "iterator.filter(f).collect() over the eager find_items result -> verified helper with the exact filter semantics"),
     ("R-eager", "-> impl Iterator < Item = SocketAddr > + 'a", "-> Vec < SocketAddr >", "return type of the eager stand-in"),
     ("R-enum", "for ( $i , $x ) in ( $r ) . enumerate ( ) {", "let mut vx_n : usize = 0 ; for $x in $r { let $i = vx_n ; vx_n += 1 ;", "Enumerate unsupported: explicit counter (same index sequence)"),
     ("R-shuffle", "message_ids . shuffle ( & mut rand :: thread_rng ( ) ) ;", "vx_shuffle ( & mut message_ids , & mut rand :: thread_rng ( ) ) ;", "rand SliceRandom::shuffle stand-in (trusted: permutes in place)"),
